@@ -30,7 +30,23 @@ def run_g11(chk, G11, repo):
     def depth_of(e, env, fn):
         """depth of the value: 0 element, 1 part, 2 partition, 3 collection of partitions; None unknown"""
         if isinstance(e, ast.Name):
-            return env.get(e.id)
+            if e.id in env:
+                return env.get(e.id)
+            # a local bound to a pipeline stage (canonical = (tuple(f(p)) for p in _partitions(..)))
+            g_ = pm.functions.get(fn)
+            if g_ is not None:
+                for a_ in walk_no_nested(g_.node):
+                    if isinstance(a_, ast.Assign) and len(a_.targets) == 1 and isinstance(a_.targets[0], ast.Name) \
+                            and a_.targets[0].id == e.id and isinstance(a_.value, (ast.GeneratorExp, ast.ListComp, ast.Call)):
+                        return depth_of(a_.value, env, fn)
+            return None
+        if isinstance(e, (ast.GeneratorExp, ast.ListComp)) and len(e.generators) == 1 \
+                and isinstance(e.generators[0].target, ast.Name):
+            # (f(x) for x in xs): the same as map(f, xs)
+            d = depth_of(e.generators[0].iter, env, fn)
+            if d is not None:
+                depth_of(e.elt, dict(env, **{e.generators[0].target.id: d - 1}), fn)
+            return d
         if isinstance(e, ast.Call):
             f = dotted(e.func) or ''
             if f == 'map' and len(e.args) == 2:
